@@ -14,18 +14,78 @@ RULE = ('one real ActiveObject whose capacity for tracked timed sources is 2-4 (
         'periods from a small set); the new timer thread and the caller are interleaved by the seeded scheduler (PCT lets the '
         'new thread run first; bytecode granularity inside __post_event and the timer body). Oracle: the extra call raises '
         'ActiveObjectOutOfPostedEventResources; the rejected source\'s event never reaches the queue over the whole horizon; '
-        'the tracked sources keep posting on their calendars. Non-trivial = every run (a rejection happens in each); distinct = '
+        'the tracked sources keep posting on their calendars; second stratum: one or no slot is free and 2-3 threads make a timed post at the same instant - at most as many as there are free slots may be accepted. Non-trivial = every run (a rejection happens in each); distinct = '
         'distinct (capacity, deferred flag, kind, interleaving signature of the rejected call) tuples.')
 ASSUMPTIONS = ['virtual time; horizon 3-8 periods']
 PROBES = ['rejected_post']
 PLAN = {
-  'quick': {'strata': {'rejected': 3000}, 'wall_s': 300, 'chunk': 50, 'min_conclusive': 800},
-  'thorough': {'strata': {'rejected': 80000}, 'wall_s': 900, 'chunk': 100, 'min_conclusive': 800},
+  'quick': {'strata': {'rejected': 3000, 'concurrent-extra': 1200}, 'wall_s': 300, 'chunk': 50, 'min_conclusive': 800},
+  'thorough': {'strata': {'rejected': 80000, 'concurrent-extra': 40000}, 'wall_s': 900, 'chunk': 100, 'min_conclusive': 800},
 }
+
+
+def generate_concurrent(rng):
+  # one slot (or none) is left in the table and 2-3 threads make a timed post at the same instant: at most as many as
+  # there are free slots may be accepted, the others must be rejected and must never fire
+  cap = rng.randrange(2, 5)
+  free = rng.choice([1, 1, 0])
+  p = rng.choice([0.1, 0.25, 1.0])
+  n = rng.randrange(2, 4)
+  c0 = [['start', 0]]
+  for slot in range(cap - free):
+    c0.append(['timed', 0, rng.choice(['fifo', 'lifo']), 'TA', p * rng.choice([1, 2]), 0, True, slot])
+  c0.append(['barrier', n])
+  clients = [c0] + [[['barrier', n]] for _ in range(n - 1)]
+  for k in range(n):
+    clients[k].append(['timed', 0, rng.choice(['fifo', 'lifo']), 'TX', p * rng.choice([0.5, 1, 3]), rng.choice([0, 1, 3]), rng.choice([False, False, True, None]), 100 + k])
+  return {'objects': aw.default_objects(1), 'queue_size': cap, 'clients': clients, 'horizon_s': p * rng.randrange(3, 9) + 2 * p,
+          'stratum': 'concurrent-extra', 'free': free,
+          'sched': common.draw_sched(rng, grans=('line', 'opcode'), weights=(1, 2), expected_steps=1500, policies=('sticky', 'pct'))}
+
+
+def judge_concurrent(sc, run, sim, res):
+  hor_us = int(sc['horizon_s'] * 1e6)
+  cap, free = sc['queue_size'], sc['free']
+  appends = ac.timer_appends(run, 0)
+  q = ac.replay_queue(run, 0)
+  group = [s for s in run.sources if s['slot'] is not None and s['slot'] >= 100]
+  accepted = [s for s in group if not s['rejected']]
+  sim.probe('rejected_post')
+  res.nontrivial.append(hash(('concurrent', cap, free, len(group), sim.switch_signature())))
+  if len(accepted) > free:
+    res.violate('extra-source-accepted', {'concurrent': True},
+                '%d sources were tracked (capacity %d) and %d threads made a timed post at the same time: %d were accepted, only %d slot(s) were free' % (
+                  cap - free, cap, len(group), len(accepted), free))
+    return
+  if len(accepted) < free:
+    res.violate('tracked-source-rejected', {'concurrent': True}, 'a slot was free but all %d concurrent timed posts were rejected' % len(group))
+    return
+  for s in run.sources:
+    desc = 'timed post %s/%s period=%s times=%s deferred=%s' % (s['kind'], s['sig'], s['period'], s['times'], s['deferred'])
+    if s['rejected']:
+      if s not in group:
+        res.violate('tracked-source-rejected', {}, '%s raised %s although the table was not full' % (desc, s['exc']))
+        return
+      if s['exc'] != 'ActiveObjectOutOfPostedEventResources':
+        res.violate('wrong-exception', {'exc': s['exc']}, '%s raised %s' % (desc, s['exc']))
+        return
+      fired = [a for a in q['adds'] if a[3] == s['uid']]
+      if fired:
+        res.violate('rejected-source-fired', {'deferred': s['deferred'] is not False, 'n': 'one' if len(fired) == 1 else 'several', 'concurrent': True},
+                    '%s was rejected with %s, yet its event was put into the queue %d time(s)' % (desc, s['exc'], len(fired)))
+        return
+    else:
+      inst = [g[3] for g in appends.get(s['threads'][0], [])] if s['threads'] else []
+      cal = calendar(s, hor_us)
+      if inst != cal:
+        res.violate('tracked-source-disturbed', {'concurrent': True}, '%s posted at %s instead of %s' % (desc, [i / 1e6 for i in inst[:10]], [c / 1e6 for c in cal[:10]]))
+        return
 
 
 def generate(seed, stratum, tier):
   rng = random.Random(seed)
+  if stratum == 'concurrent-extra':
+    return generate_concurrent(rng)
   cap = rng.randrange(2, 5)
   p = rng.choice([0.1, 0.25, 1.0])
   c0 = [['start', 0]]
@@ -48,6 +108,10 @@ def generate(seed, stratum, tier):
 
 
 def shrink_candidates(sc):
+  if sc.get('stratum') == 'concurrent-extra':
+    if sc['sched'].get('gran') == 'opcode':
+      yield dict(sc, sched=dict(sc['sched'], gran='line'))
+    return
   s = sc['clients'][0]
   extras = [j for j, o in enumerate(s) if o[0] == 'timed' and o[3] == 'TX']
   if len(extras) > 1:
@@ -67,7 +131,9 @@ def execute(sc, sched):
     if ok and reason not in ('quiescent', 'horizon'):
       res.outcome, res.reason = 'inconclusive', reason
       ok = False
-    if ok:
+    if ok and sc.get('stratum') == 'concurrent-extra':
+      judge_concurrent(sc, run, sim, res)
+    elif ok:
       hor_us = int(sc['horizon_s'] * 1e6)
       cap = sc['queue_size']
       appends = ac.timer_appends(run, 0)
